@@ -542,7 +542,9 @@ func (r *runner) doOp(iface distsys.ArchetypeInterface, j int, op Op) error {
 		got := ""
 		if err == nil {
 			got = "<not a string: " + v.String() + ">"
-			if v.IsString() {
+			if c, isCodec := in.(Codec); isCodec {
+				got = c.Dec(v)
+			} else if v.IsString() {
 				got = v.AsString()
 			}
 			rec.Tok = got
@@ -588,6 +590,9 @@ func (r *runner) doOp(iface distsys.ArchetypeInterface, j int, op Op) error {
 		rec.Prev, rec.HasPrev = in.MPeek(op.Idx)
 	}
 	val := tla.MakeString(tok)
+	if c, isCodec := in.(Codec); isCodec {
+		val = c.Enc(tok)
+	}
 	if op.Fwd && op.Raw && r.lastRead != "" && r.lastClock != nil {
 		// a relayed value that still carries its sender's clock: Write must add the relayer's, not replace it
 		val = tla.WrapCausal(val, *r.lastClock)
